@@ -25,7 +25,8 @@ Inductive stmt :=
   | SSet (x : string) (e : expr)
   | SSetNs (ns attr : string) (e : expr)
   | SCallBlock (call : expr) (body : list stmt)
-  | SMacro (name : string) (args : list string) (body : list stmt)
+  | SMacro (name : string) (args : list string) (defaults : list expr) (body : list stmt)   (* defaults belong to the LAST arguments *)
+  | SFiltered (filter : string) (args : list expr) (body : list stmt)                        (* not produced by the translator: output of body through a filter *)
   | SBlock (name : string) (body : list stmt)
   | SExtends (e : expr)
   | SOther (kind : string).
